@@ -352,6 +352,8 @@ class Index:
             "units_parsed": len(self.modules),
             "classes": sum(len(m.classes) for m in self.modules.values()),
             "functions": sum(len(m.functions) for m in self.modules.values()),
+            "helper_calls_looked_through": sum(getattr(m, "inlined_calls", 0) for m in self.modules.values()),
+            "helpers_absorbed": sum(1 for m in self.modules.values() for f in m.functions.values() if getattr(f.node, "_absorbed", False)),
         }
 
 
